@@ -111,54 +111,7 @@ func c01(c *Ctx) {
 				"the object stored in desired is the one GenerateName was called on", "GenerateName is called on a different object than the one stored in desired")
 		}
 	}
-	if ng := c.method("internal/names", "nameGenerator", "GenerateName"); ng != nil {
-		var setName []ssa.CallInstruction
-		for _, x := range cfgx.Calls(ng, nil) {
-			if strings.HasSuffix(cfgx.CalleeName(x), ".SetName") {
-				setName = append(setName, x)
-			}
-		}
-		// don't-rename: GetName() != "" true edge must not reach SetName
-		var hasName, noGen []cfgx.Edge
-		for _, b := range ng.Blocks {
-			for _, in := range b.Instrs {
-				if bo, ok := in.(*ssa.BinOp); ok {
-					for _, pr := range [][2]ssa.Value{{bo.X, bo.Y}, {bo.Y, bo.X}} {
-						if s, isC := cfgx.ConstString(pr[1]); isC && s == "" {
-							t, f := cfgx.CondEdges(bo)
-							if bo.Op.String() == "==" {
-								t, f = f, t
-							} else if bo.Op.String() != "!=" {
-								continue
-							}
-							if hasSuffixCall(pr[0], ".GetName") {
-								hasName = append(hasName, t...)
-							}
-							if hasSuffixCall(pr[0], ".GetGenerateName") {
-								noGen = append(noGen, f...)
-							}
-						}
-					}
-				}
-			}
-		}
-		if len(setName) == 0 || len(hasName) == 0 {
-			c.R.Unknown(load.FuncName(ng)+": shape", c.pos(ng.Pos()), "expected a SetName call and a GetName()!=\"\" test")
-		}
-		for _, sn := range setName {
-			reach, w := cfgx.ReachableFromEdges(hasName, sn, nil, c.posf())
-			c.R.Check(!reach, site(sn)+" never-renames", c.pos(sn.Pos()), "SetName is unreachable when the object already has a name", "the generator can rename an object that already has a name", w...)
-			// availability: SetName only on the IsNotFound edge of the probe Get
-			gets := calls(ng, clientGet)
-			c.requireCross(site(sn)+" name-available", sn, notFoundEdgesOf(ng, gets...), "IsNotFound(probe Get)==true")
-			// the name set is the name probed
-			if len(gets) == 1 {
-				probe := cfgx.CallArgs(gets[0])[1]
-				nm := cfgx.CallArgs(sn)[0]
-				c.R.Check(flow.Strict.Any(probe, func(v ssa.Value) bool { return v == nm }), site(sn)+" probed-name", c.pos(sn.Pos()), "the name set is the name whose availability was probed", "the name that is set is not the one that was probed")
-			}
-		}
-	}
+	nameGeneratorRules(c)
 	if pt != nil {
 		// P&T: refs[i] is stored on every path of the iteration (placeholder refs keep array order)
 		var refStore ssa.Instruction
@@ -422,6 +375,36 @@ func c01(c *Ctx) {
 			c.R.Check(!bad && len(noName) > 0, load.FuncName(rm)+": stamped unless unnamed", c.pos(at.Pos()), "every successful render passes the stamp, except for an empty name", "a named resource can be rendered without (re)stamping crossplane.io/composition-resource-name: an existing value wins")
 		}
 	}
+	// the stamp itself overwrites: SetCompositionResourceName writes the annotation on every path
+	if sn := c.fn(pkgComposite, "SetCompositionResourceName"); sn != nil && len(sn.Params) == 2 {
+		adds := calls(sn, xprt+"meta.AddAnnotations")
+		through := map[*ssa.BasicBlock]bool{}
+		named := false
+		for _, a := range adds {
+			through[a.Block()] = true
+			if flow.Root(underIface(cfgx.CallArgs(a)[0])) == ssa.Value(sn.Params[0]) {
+				for _, b := range sn.Blocks {
+					for _, in := range b.Instrs {
+						if mu, ok := in.(*ssa.MapUpdate); ok && flow.Default.Any(mu.Value, func(v ssa.Value) bool { return v == ssa.Value(sn.Params[1]) }) {
+							named = true
+						}
+					}
+				}
+			}
+		}
+		bad := len(adds) == 0
+		var at ssa.Instruction
+		for b := range cfgx.ReachFromEntry(sn, through, nil) {
+			if r, ok := b.Instrs[len(b.Instrs)-1].(*ssa.Return); ok && !through[b] {
+				bad, at = true, r
+			}
+		}
+		p := sn.Pos()
+		if at != nil {
+			p = at.Pos()
+		}
+		c.R.Check(!bad && named, load.FuncName(sn)+": always overwrites", c.pos(p), "the helper writes the supplied name into the annotation on every path", "SetCompositionResourceName can return without writing the supplied name: an annotation the rendered body already carries wins, and the resource is filed under another template")
+	}
 	ptRenderOrder(c, pt)
 }
 
@@ -570,4 +553,57 @@ func isWrapOfCall(v ssa.Value) bool {
 	}
 	_, isCall := c.Call.Args[0].(*ssa.Call)
 	return isCall
+}
+
+// nameGeneratorRules: the name generator never renames and hands out a name
+// only when the probe found nothing under it.
+func nameGeneratorRules(c *Ctx) {
+	if ng := c.method("internal/names", "nameGenerator", "GenerateName"); ng != nil {
+		var setName []ssa.CallInstruction
+		for _, x := range cfgx.Calls(ng, nil) {
+			if strings.HasSuffix(cfgx.CalleeName(x), ".SetName") {
+				setName = append(setName, x)
+			}
+		}
+		// don't-rename: GetName() != "" true edge must not reach SetName
+		var hasName, noGen []cfgx.Edge
+		for _, b := range ng.Blocks {
+			for _, in := range b.Instrs {
+				if bo, ok := in.(*ssa.BinOp); ok {
+					for _, pr := range [][2]ssa.Value{{bo.X, bo.Y}, {bo.Y, bo.X}} {
+						if s, isC := cfgx.ConstString(pr[1]); isC && s == "" {
+							t, f := cfgx.CondEdges(bo)
+							if bo.Op.String() == "==" {
+								t, f = f, t
+							} else if bo.Op.String() != "!=" {
+								continue
+							}
+							if hasSuffixCall(pr[0], ".GetName") {
+								hasName = append(hasName, t...)
+							}
+							if hasSuffixCall(pr[0], ".GetGenerateName") {
+								noGen = append(noGen, f...)
+							}
+						}
+					}
+				}
+			}
+		}
+		if len(setName) == 0 || len(hasName) == 0 {
+			c.R.Unknown(load.FuncName(ng)+": shape", c.pos(ng.Pos()), "expected a SetName call and a GetName()!=\"\" test")
+		}
+		for _, sn := range setName {
+			reach, w := cfgx.ReachableFromEdges(hasName, sn, nil, c.posf())
+			c.R.Check(!reach, site(sn)+" never-renames", c.pos(sn.Pos()), "SetName is unreachable when the object already has a name", "the generator can rename an object that already has a name", w...)
+			// availability: SetName only on the IsNotFound edge of the probe Get
+			gets := calls(ng, clientGet)
+			c.requireCross(site(sn)+" name-available", sn, notFoundEdgesOf(ng, gets...), "IsNotFound(probe Get)==true")
+			// the name set is the name probed
+			if len(gets) == 1 {
+				probe := cfgx.CallArgs(gets[0])[1]
+				nm := cfgx.CallArgs(sn)[0]
+				c.R.Check(flow.Strict.Any(probe, func(v ssa.Value) bool { return v == nm }), site(sn)+" probed-name", c.pos(sn.Pos()), "the name set is the name whose availability was probed", "the name that is set is not the one that was probed")
+			}
+		}
+	}
 }
